@@ -64,9 +64,9 @@ def facet_quadrature(m, cat):
     return pts, np.ones(pts.shape[1]) / pts.shape[1]
 
 
-def jumps(m, e, cat, x):
+def jumps(m, e, cat, x, comp=0):
     """max |jump| of the element-appropriate trace over all interior facets and comparison points;
-    returns (jump, scale, detail)"""
+    returns (jump, scale, detail); comp = component of a composite element"""
     from skfem import InteriorFacetBasis
     q = facet_quadrature(m, cat)
     b0 = InteriorFacetBasis(m, e, side=0, quadrature=q)
@@ -74,7 +74,7 @@ def jumps(m, e, cat, x):
     u0 = b0.interpolate(x)
     u1 = b1.interpolate(x)
     if isinstance(u0, tuple):
-        u0, u1 = u0[0], u1[0]
+        u0, u1 = u0[comp], u1[comp]
     n = np.asarray(b0.normals)
     v0, v1 = np.asarray(u0), np.asarray(u1)
     dim = m.dim()
@@ -218,6 +218,14 @@ def run(ctx):
             m = type(m)(m.p.copy(), np.ascontiguousarray(t2).astype(dt))
             info = dict(info, **{"connectivity-dtype": np.dtype(dt).name, "local-reorder": True})
             ctx.count("connectivity-dtype:" + np.dtype(dt).name)
+        if kind == "tri" and type(m).__name__ == "MeshTri1" and m is m0 and rng.random() < 0.35 \
+                and max(int(e.facet_dofs), int(e.edge_dofs)) <= 1 and elements.family(e) != "global":
+            # cells kept in the order given (sort_t=False: oriented meshes, adaptive refinement): within the claim
+            # for elements with at most one DOF per facet
+            t2 = meshes.local_reorder(rng, "tri", m.t.astype(np.int64)).astype(np.int32)
+            m = type(m)(m.p.copy(), np.ascontiguousarray(t2), sort_t=False)
+            info = dict(info, **{"sort_t": False, "local-reorder": True})
+            ctx.count("tri:sort_t=False")
         if elements.family(e) == "global" and m.t.shape[0] == m.elem.refdom.nnodes and rng.random() < 0.5:
             # ONE element object used first on a mesh and then on another mesh over the SAME vertex array with the
             # same number of cells (cells in another order, vertices of the cells in another order)
@@ -233,6 +241,23 @@ def run(ctx):
                 ctx.count("element-object-reused-on-twin")
             except Exception:
                 pass
+        composite = None
+        if cat in ("h1", "hdiv", "hcurl") and kind in ("tri", "quad", "tet", "hex") and m is m0 \
+                and rng.random() < (0.3 if kind in ("tet", "hex") else 0.1):
+            # a composite of two conforming elements (different entity kinds carry their DOFs): every component
+            # keeps the continuity of its element
+            from skfem import ElementComposite
+            c2 = [(nm, f) for (nm, f) in elements.pool()[kind] if not elements.is_skeleton(nm)
+                  and category(f(), nm) in ("h1", "hdiv", "hcurl") and elements.family(f()) != "global"]
+            if c2 and elements.family(e) != "global":
+                n2, f2 = rng.choice(c2)
+                e2 = f2()
+                composite = (ElementComposite(e, e2) if rng.random() < 0.5 else ElementComposite(e2, e),
+                             [cat, category(e2, n2)], [name, n2])
+                if composite[0].elems[0] is e2:
+                    composite = (composite[0], composite[1][::-1], composite[2][::-1])
+                name = "ElementComposite(" + ",".join(composite[2]) + ")"
+                ctx.count("composite-of-two-conforming-elements")
         descr = {"mesh": meshes.mesh_descr(m), "info": info, "element": name, "claim": cat}
         ctx.case({"t": m.t.tolist(), "p": m.p.tolist(), "element": name}, nontrivial=True,
                  sample={"info": info, "element": name, "claim": cat} if ctx.evaluations < 3 else None)
@@ -260,6 +285,13 @@ def run(ctx):
                 if cat == "c1":
                     jg = max((max(a[1] for a in l) - min(a[1] for a in l)) for l in per_vertex.values())
                     res.append((jg, max(1.0, float(np.abs(np.asarray(u.grad)).max())), "gradient"))
+            elif composite is not None:
+                ec, cats, _ = composite
+                N = Basis(m, ec, intorder=1).N
+                x = np.array([rng.randint(-8, 8) / 4 for _ in range(N)])
+                res = []
+                for ci, cc in enumerate(cats):
+                    res += [(j, sc, f"{what} of component {ci}") for (j, sc, what) in jumps(m, ec, cc, x, comp=ci)]
             else:
                 res = jumps(m, e, cat, x)
         except Exception as ex:
